@@ -155,13 +155,32 @@ fn run_step(sess: &mut Session, step: Step, done: &mut Vec<Step>, rep: &mut Repo
 fn c06_one_config(ctx: &Ctx, rep: &mut Report, script_seed: u64, version: Version, bufsize: Option<usize>, init_len: u64, n_calls: usize, big: bool, raw_rw: bool, done: &mut Vec<Step>) -> Result<u64, Fail> {
     let mut rng = Rng::new(script_seed);
     let rng = &mut rng;
-    let mut sess = Session::create(version, bufsize).map_err(|e| ("create | ok | err".to_string(), format!("{e}")))?;
-    let cfg = HCfg { max_len: if big { 1_200_000 } else { 80_000 }, extreme_seeks: true, set_len_pct: 8, raw_rw, cap_hint: if big { 1 << 20 } else { *rng.pick(&[1024u64, 1024, 1025, 1500, 4096, 5000, 65536]) } };
-    run_step(&mut sess, Step::HOpen { slot: 0, path: "/s".into(), how: OpenHow::Create }, done, rep)?;
-    if init_len > 0 {
-        run_step(&mut sess, Step::HWriteAll { slot: 0, len: init_len as usize }, done, rep)?;
-        run_step(&mut sess, Step::HSeek { slot: 0, from: SeekFrom::Start(0) }, done, rep)?;
+    // a quarter of the scripts run on a stream that another writer produced: the bytes
+    // behind its end (rest of the final sector) and all free sectors hold garbage
+    let mut foreign = None;
+    if !big && script_seed % 4 == 1 {
+        let mut srng = Rng::new(script_seed ^ 0xF0E1);
+        let model = crate::synth::flat_model(&[("s".to_string(), engine::payload(321, init_len as usize)), ("other".to_string(), engine::payload(322, 4100))]);
+        foreign = crate::synth::dirty_foreign_session(&model, version, bufsize, &mut srng);
     }
+    let cfg = HCfg { max_len: if big { 1_200_000 } else { 80_000 }, extreme_seeks: true, set_len_pct: if foreign.is_some() { 20 } else { 8 }, raw_rw, cap_hint: if big { 1 << 20 } else { *rng.pick(&[1024u64, 1024, 1025, 1500, 4096, 5000, 65536]) } };
+    let mut sess = match foreign {
+        Some(s) => {
+            rep.count("start.foreign_dirty_slack");
+            let mut s = s;
+            run_step(&mut s, Step::HOpen { slot: 0, path: "/s".into(), how: OpenHow::Open }, done, rep)?;
+            s
+        }
+        None => {
+            let mut s = Session::create(version, bufsize).map_err(|e| ("create | ok | err".to_string(), format!("{e}")))?;
+            run_step(&mut s, Step::HOpen { slot: 0, path: "/s".into(), how: OpenHow::Create }, done, rep)?;
+            if init_len > 0 {
+                run_step(&mut s, Step::HWriteAll { slot: 0, len: init_len as usize }, done, rep)?;
+                run_step(&mut s, Step::HSeek { slot: 0, from: SeekFrom::Start(0) }, done, rep)?;
+            }
+            s
+        }
+    };
     let mut next_readback = rng.range(10, 20) as usize;
     for k in 0..n_calls {
         let step = handle_step(rng, &sess, 0, &cfg);
@@ -242,7 +261,7 @@ pub fn run_c06(ctx: &Ctx, rep: &mut Report) {
         rep.evaluations += 1;
         // Differential leg: with exact-count calls only, the script and every result are
         // the same under all configurations.
-        if !raw_rw && finals.len() >= 2 {
+        if !raw_rw && finals.len() >= 2 && script_seed % 4 != 1 {
             for w in finals.windows(2) {
                 if w[0].1 != w[1].1 || w[0].2 != w[1].2 {
                     rep.finding("differential | exact-count script | configurations disagree".to_string(), format!("{} and {} produced different traces/contents for the same exact-count script", w[0].0, w[1].0), ctx.witness(case, vec![("a", J::s(&w[0].0)), ("b", J::s(&w[1].0)), ("steps_a", steps_json(&w[0].2)), ("steps_b", steps_json(&w[1].2))]));
@@ -274,13 +293,102 @@ fn payload_history(sess: &Session, p: &str) -> Vec<u8> {
     sess.model.get_path(p).map(|n| n.data.clone()).unwrap_or_default()
 }
 
+/// "Regardless of earlier history such as a previous shrink of the same stream": here
+/// the shrink happens through a second handle, behind the back of a long-lived handle
+/// that saw the stream at its old length and then grows it.  Uses a scratch stream that
+/// is removed again, so the session's model is not involved.
+fn two_handle_episode(sess: &mut Session, rng: &mut Rng, rep: &mut Report) -> Result<(), Fail> {
+    use std::io::{Read, Seek, Write};
+    let regular = rng.chance(1, 2);
+    let (l, c, n): (u64, u64, u64) = if regular {
+        let l = rng.range(6000, 20000);
+        let c = rng.range(4096, l - 1000);
+        (l, c, l + rng.range(1, 9000))
+    } else {
+        let l = rng.range(300, 3500);
+        let c = rng.range(0, l - 100);
+        (l, c, (l + rng.range(1, 500)).min(4095))
+    };
+    let ctx_s = format!("/two: written {l} bytes through handle A; set_len({c}) through handle B; set_len({n}) through handle A");
+    let io = |what: &str| {
+        let c = ctx_s.clone();
+        let w = what.to_string();
+        move |e: std::io::Error| ("grow | two handles | call failed".to_string(), format!("{c}: {w}: {e}"))
+    };
+    let cf = sess.cf();
+    let mut a = cf.create_stream("/two").map_err(io("create_stream"))?;
+    let data: Vec<u8> = (0..l).map(|i| 0x80 | (i as u8)).collect();
+    a.write_all(&data).map_err(io("write"))?;
+    a.flush().map_err(io("flush"))?;
+    if rng.chance(1, 2) {
+        // A has read its data too (its buffer has seen the long content)
+        a.seek(SeekFrom::Start(0)).map_err(io("seek"))?;
+        let mut v = Vec::new();
+        a.read_to_end(&mut v).map_err(io("read"))?;
+    }
+    {
+        let mut b = cf.open_stream("/two").map_err(io("open second handle"))?;
+        b.set_len(c).map_err(io("set_len through B"))?;
+        b.flush().map_err(io("flush B"))?;
+    }
+    a.set_len(n).map_err(io("set_len through A"))?;
+    a.flush().map_err(io("flush A"))?;
+    drop(a);
+    // the bytes gained by A's set_len lie between the stream's real end (c) and n
+    let mut f = cf.open_stream("/two").map_err(io("open fresh handle"))?;
+    let mut got = Vec::new();
+    f.read_to_end(&mut got).map_err(io("read fresh handle"))?;
+    drop(f);
+    let res = if got.len() as u64 != n {
+        Err(("grow | two handles | length".to_string(), format!("{ctx_s}: a fresh handle reads {} bytes", got.len())))
+    } else if got[..c as usize] != data[..c as usize] {
+        Err(("grow | two handles | kept bytes changed".to_string(), format!("{ctx_s}: the first {c} bytes differ")))
+    } else if let Some(k) = got[c as usize..].iter().position(|&b| b != 0) {
+        let nz = got[c as usize..].iter().filter(|&&b| b != 0).count();
+        Err((format!("grow | {} | truncated data of the same stream is back (shrunk through another handle)", if regular { "regular" } else { "mini" }), format!("{ctx_s}: {nz} of the {} gained bytes are non-zero, first at offset {}", n - c, c + k as u64)))
+    } else {
+        Ok(())
+    };
+    cf.remove_stream("/two").map_err(io("remove_stream"))?;
+    rep.count("grows_checked");
+    rep.count("grows_after_shrink_through_another_handle");
+    res
+}
+
 fn c08_case(ctx: &Ctx, rep: &mut Report, rng: &mut Rng, version: Version, bufsize: Option<usize>, done: &mut Vec<Step>) -> Result<(), Fail> {
-    let mut sess = Session::create(version, bufsize).map_err(|e| ("create | ok | err".to_string(), format!("{e}")))?;
     let names = ["/a", "/b", "/c", "/d", "/e"];
+    // "regardless of earlier history": a third of the cases start from a file another
+    // writer produced, in which the bytes behind the end of each stream (rest of the final
+    // sector / mini sector) and all free sectors hold garbage
+    let mut start = None;
+    if rng.chance(1, 3) {
+        let lens: &[usize] = &[1, 30, 100, 600, 4000, 4097, 4200, 5000, 8193, 9000, 13000];
+        let mut items: Vec<(String, Vec<u8>)> = Vec::new();
+        for (i, n) in names.iter().enumerate() {
+            if rng.chance(3, 4) {
+                let len = *rng.pick(lens);
+                items.push((n[1..].to_string(), engine::payload(500 + i as u64, len)));
+            }
+        }
+        let model = crate::synth::flat_model(&items);
+        start = crate::synth::dirty_foreign_session(&model, version, bufsize, rng);
+        if start.is_some() {
+            rep.count("start.foreign_dirty_slack");
+            done.push(Step::Api(Op::Walk)); // marks the witness: the start image is regenerated from the case
+        }
+    }
+    let mut sess = match start {
+        Some(s) => s,
+        None => Session::create(version, bufsize).map_err(|e| ("create | ok | err".to_string(), format!("{e}")))?,
+    };
     let mut former: Vec<(String, Vec<u8>)> = Vec::new();
     let n_ops = if ctx.quick() { rng.range(10, 60) } else { rng.range(20, 200) };
     let sizes: &[u64] = &[0, 1, 30, 63, 64, 65, 100, 128, 200, 511, 512, 513, 600, 1000, 2048, 4000, 4031, 4032, 4095, 4096, 4097, 4159, 4160, 5000, 8192, 8193, 9000];
     for _ in 0..n_ops {
+        if rng.chance(1, 25) {
+            two_handle_episode(&mut sess, rng, rep)?;
+            continue;
+        }
         let p = *rng.pick(&names);
         let exists = sess.model.get_path(p).is_some();
         let w = rng.below(100);
